@@ -147,9 +147,9 @@ func init() {
 		ID: "C06", Level: "model_checking",
 		Harnesses: []harness{
 			{Name: "gsxC06InitCheckers", Pkg: "cmd/go-critic", Quick: map[string]int{"strlen": 5}, MustReach: []string{"non-empty selection", "empty selection"}},
-			{Name: "gsxC06DefaultList", Pkg: "cmd/go-critic", Quick: map[string]int{"strlen": 5}, MustReach: []string{"defaults"}},
+			{Name: "gsxC06DefaultList", Pkg: "cmd/go-critic", Quick: map[string]int{"strlen": 12}, MustReach: []string{"defaults"}},
 			{Name: "gsxC06InitCheckers", Pkg: "cmd/gocritic", Quick: map[string]int{"strlen": 5}, MustReach: []string{"non-empty selection", "empty selection"}},
-			{Name: "gsxC06DefaultList", Pkg: "cmd/gocritic", Quick: map[string]int{"strlen": 5}, MustReach: []string{"defaults"}},
+			{Name: "gsxC06DefaultList", Pkg: "cmd/gocritic", Quick: map[string]int{"strlen": 12}, MustReach: []string{"defaults"}},
 			{Name: "gsxC06Filter", Pkg: "checkers/analyzer", Quick: map[string]int{"strlen": 5}, MustReach: []string{"filtered"}},
 			{Name: "gsxC06EmptySelection", Pkg: "checkers/analyzer", Quick: map[string]int{"strlen": 5}, MustReach: []string{"selected", "empty selection"}},
 			{Name: "gsxC06Defaults", Pkg: "checkers/analyzer", Quick: map[string]int{"strlen": 12}, MustReach: []string{"defaults"}},
